@@ -43,6 +43,21 @@ fn stub_write(_o: &mut dyn core::fmt::Write, _a: core::fmt::Arguments<'_>) -> co
     Ok(())
 }
 
+fn stub_tr_interest(_c: &'static tracing::callsite::DefaultCallsite) -> tracing::subscriber::Interest {
+    tracing::subscriber::Interest::never()
+}
+fn stub_tr_enabled(_m: &tracing::Metadata<'static>, _i: tracing::subscriber::Interest) -> bool {
+    false
+}
+fn stub_tr_dispatch<'a: 'a>(_m: &'static tracing::Metadata<'static>, _f: &'a tracing::field::ValueSet<'_>) {}
+
+/// `Reader::new` captures the current tracing / qlog spans (thread-locals, dispatcher): not encodable
+/// (kani-compiler ICE). After a connection error no Reader is ever created, so the stub only has
+/// to exist; reaching it is reported.
+fn stub_reader_new<TX>(_inner: ArcRecver<TX>) -> Reader<TX> {
+    panic!("a Reader was created after the connection error")
+}
+
 fn any_kind() -> ErrorKind {
     let k: u8 = kani::any();
     match k % 4 {
@@ -61,6 +76,10 @@ fn conn_error(kind: ErrorKind) -> QuicError {
 #[kani::stub(std::sync::Mutex::lock, stub_mutex_lock)]
 #[kani::stub(std::fmt::format, stub_fmt)]
 #[kani::stub(core::fmt::write, stub_write)]
+#[kani::stub(tracing::callsite::DefaultCallsite::interest, stub_tr_interest)]
+#[kani::stub(tracing::__macro_support::__is_enabled, stub_tr_enabled)]
+#[kani::stub(tracing::Event::dispatch, stub_tr_dispatch)]
+#[kani::stub(crate::recv::Reader::new, stub_reader_new)]
 fn c17_listener_poison() {
     let listener: ArcListener<Broker> = ArcListener::new();
     let bi_parked: bool = kani::any();
